@@ -86,7 +86,7 @@ Qed.
 Print Assumptions C01_nested_tokenize_progress.
 
 (* ---- the block parser never raises ---------------------------------------------------------- *)
-From MD Require Import Model.Ruler Lemmas.NoRaise Gen.Rules Lemmas.PipelineSafe.
+From MD Require Import Model.Ruler Lemmas.NoRaise Lemmas.NoFuel Gen.Rules Lemmas.PipelineSafe.
 
 (* For EVERY source, env and token list, and every configuration (options.html on or off, any
    maxNesting, any enabled subset) that has the paragraph rule and whose named terminator chains hold only silent-capable rules other than
@@ -107,6 +107,27 @@ Theorem C01_block_parse_never_raises :
     forall e, block_parse cfg rf cf src env toks <> Raise e.
 Proof. exact block_parse_no_raise. Qed.
 Print Assumptions C01_block_parse_never_raises.
+
+(* ---- the block parser is total ---------------------------------------------------------------- *)
+(* The block model can answer OutOfFuel in six places: the paragraph-like continuation scan, the
+   block quote line loop, the list item loop, the table body loop, the line loop of tokenize (fuel
+   computed from the line range) and the container depth of tokenize (fuel maxNesting + 2).  None
+   of them is ever reached: every loop consumes a line per iteration, and a nested tokenize is only
+   entered below the maxNesting cut-off with the level strictly larger than its caller's. *)
+Theorem C01_block_parse_fuel_suffices :
+  forall cfg rf cf src env toks,
+    term_names_ok cfg -> mem_str nm_paragraph (c_rules cfg) = true ->
+    block_parse cfg rf cf src env toks <> OutOfFuel.
+Proof. exact block_parse_fuel. Qed.
+Print Assumptions C01_block_parse_fuel_suffices.
+
+(* hence: for EVERY source, env, token list and configuration, ParserBlock.parse returns a state *)
+Theorem C01_block_parse_total :
+  forall cfg rf cf src env toks,
+    term_names_ok cfg -> mem_str nm_paragraph (c_rules cfg) = true ->
+    exists st, block_parse cfg rf cf src env toks = Ok st.
+Proof. exact block_parse_total. Qed.
+Print Assumptions C01_block_parse_total.
 
 (* every rule, the nested tokenize at any depth and the rule loop return with the five line tables,
    the source and lineMax exactly as they were *)
